@@ -415,6 +415,10 @@ Definition sk_find_token : list ev :=
    Ret;
    Else;
    IfE;
+   IfB;
+   Ret;
+   Else;
+   IfE;
    LoopE;
    RaiseE "MaxSearchableLineLengthReached"].
 
@@ -425,6 +429,10 @@ Definition sk_find_token_reverse : list ev :=
    IfE;
    Call "seek";
    Call "read";
+   IfB;
+   Ret;
+   Else;
+   IfE;
    IfB;
    Ret;
    Else;
